@@ -3,6 +3,7 @@
    the correspondence check runs against catchment.py, land.py and demand.py. *)
 From Coq Require Import QArith Qminmax List Bool Arith.
 From WSI Require Import Vqip Pow Tank Arc QTank Distrib Kinds Boundary Run TankLaws ArcLaws QueueLaws DistribLaws KindLaws BoundaryLaws.
+From WSI Require TimeArea Demand DemandLaws.
 Import ListNotations.
 Open Scope Q_scope.
 
@@ -37,3 +38,22 @@ Theorem C17_catchment_flow_is_the_data : forall flow conc quality k,
   get (nons (ca_get_flow flow conc quality)) k == get quality k.
 Proof. exact catchment_flow_is_data. Qed.
 Print Assumptions C17_catchment_flow_is_the_data.
+
+(* a demand node declares as generated exactly the items of the timestep (coq/Demand.v, tied by family demand): for the
+   plain Demand the constant demand with its pollutant load, for ResidentialDemand the garden water asked of Land
+   neighbours times the gardening efficiency and the house water population x per-capita use with population x load *)
+Theorem C17_demand_declares_what_it_generates : forall S (P : port S) (K : contract S P),
+  (forall s v, okS S P K s -> wet v -> forall k, vol (snd (p_push_set P s v)) <= 0 -> get (adds (snd (p_push_set P s v))) k == 0) ->
+  forall maxiter (n n' : Demand.dmnode S) its,
+  star_ok S P K (Demand.dm_ins S n) -> star_ok S P K (Demand.dm_outs S n) -> (forall i, In i its -> wet (fst i)) ->
+  Demand.dm_create S P maxiter n its = Some n' ->
+  forall c, conserved c -> cmp c (Demand.dm_demand S n') - cmp c (Demand.dm_demand S n) == DemandLaws.isum c its.
+Proof. intros S P K Hw maxiter n n' its Hi Ho Hit Hrun c Hc.
+       exact (proj2 (proj2 (proj2 (proj2 (DemandLaws.dm_create_books S P K Hw maxiter n n' its Hi Ho Hit Hrun)) c Hc))). Qed.
+Print Assumptions C17_demand_declares_what_it_generates.
+Example C17_items_of_the_two_demand_classes : forall S (P : port S) (n : Demand.dmnode S) cd load na nn eff house,
+  Demand.items_plain cd load nn = [(vnorm (mkV cd load (repeat 0 nn)), None)] /\
+  map snd (Demand.items_residential S P n na nn eff house) = [Some [TimeArea.T_LAND]; Some [T_SEWER]] /\
+  fst (nth 1 (Demand.items_residential S P n na nn eff house) (vzero, None)) = house.
+Proof. intros. repeat split. Qed.
+Print Assumptions C17_items_of_the_two_demand_classes.
